@@ -30,7 +30,23 @@ pub enum En {
     Two(String, f64),
 }
 
-const TYPES: &str = "type Rec = { n : Int, s : String, v : Array Int }\ntype En = | Unit | One Int | Two String Float\n{ Rec, En }\n";
+/// the Gluon type lists the fields in another order than the Rust struct
+#[derive(Debug, Clone, PartialEq, Getable, Pushable, VmType, Serialize, Deserialize)]
+#[gluon(vm_type = "mtypes.Rec2")]
+pub struct Rec2 {
+    a: i64,
+    b: String,
+}
+
+#[derive(Debug, Clone, PartialEq, Getable, Pushable, VmType, Serialize, Deserialize)]
+#[gluon(vm_type = "mtypes.En2")]
+pub enum En2 {
+    Dot,
+    Rect { width: i64, height: i64 },
+    Label { id: i64, text: String },
+}
+
+const TYPES: &str = "type Rec = { n : Int, s : String, v : Array Int }\ntype En = | Unit | One Int | Two String Float\ntype Rec2 = { b : String, a : Int }\ntype En2 = | Dot | Rect { height : Int, width : Int } | Label { text : String, id : Int }\n{ Rec, En, Rec2, En2 }\n";
 
 /// the value terms of Marshal.tla, with atoms already resolved to literals by the check
 pub trait Model: Sized {
@@ -160,6 +176,31 @@ impl Model for Rec {
     }
     fn to_model(&self) -> Value {
         json!(["rec", self.n.to_model(), self.s.to_model(), self.v.to_model()])
+    }
+}
+impl Model for Rec2 {
+    fn from_model(v: &Value) -> Option<Self> {
+        Some(Rec2 { a: i64::from_model(&v[1])?, b: String::from_model(&v[2])? })
+    }
+    fn to_model(&self) -> Value {
+        json!(["rec2", self.a.to_model(), self.b.to_model()])
+    }
+}
+impl Model for En2 {
+    fn from_model(v: &Value) -> Option<Self> {
+        match v[1].as_i64()? {
+            0 => Some(En2::Dot),
+            1 => Some(En2::Rect { width: i64::from_model(&v[2][0])?, height: i64::from_model(&v[2][1])? }),
+            2 => Some(En2::Label { id: i64::from_model(&v[2][0])?, text: String::from_model(&v[2][1])? }),
+            _ => None,
+        }
+    }
+    fn to_model(&self) -> Value {
+        match self {
+            En2::Dot => json!(["en2", 0, []]),
+            En2::Rect { width, height } => json!(["en2", 1, [width.to_model(), height.to_model()]]),
+            En2::Label { id, text } => json!(["en2", 2, [id.to_model(), text.to_model()]]),
+        }
     }
 }
 impl Model for En {
@@ -364,7 +405,8 @@ macro_rules! types {
 types! {
     vals {
         "int" => i64, "float" => f64, "byte" => u8, "char" => char, "str" => String, "bool" => bool, "unit" => (),
-        "rec" => Rec, "en" => En,
+        "rec" => Rec, "en" => En, "rec2" => Rec2, "en2" => En2,
+        "opt(rec2)" => Option<Rec2>, "opt(en2)" => Option<En2>, "vec(rec2)" => Vec<Rec2>, "vec(en2)" => Vec<En2>,
         "opt(int)" => Option<i64>, "opt(float)" => Option<f64>, "opt(byte)" => Option<u8>, "opt(char)" => Option<char>,
         "opt(str)" => Option<String>, "opt(bool)" => Option<bool>, "opt(unit)" => Option<()>, "opt(rec)" => Option<Rec>, "opt(en)" => Option<En>,
         "vec(int)" => Vec<i64>, "vec(float)" => Vec<f64>, "vec(byte)" => Vec<u8>, "vec(char)" => Vec<char>,
@@ -420,6 +462,35 @@ pub fn cmd(_args: &[String]) {
                     Some(r) => json!({"id": job["id"], "status": "ok", "results": r, "rebuilt": h.rebuilt}),
                     None => json!({"id": job["id"], "status": "unsupported"}),
                 }
+            }
+            "fields" => {
+                // Gluon code reading the fields of a value pushed by the derived Pushable, by name
+                let src = "let { Rec2, En2 } = import! mtypes\nlet geta r : Rec2 -> Int = r.a\nlet getb r : Rec2 -> String = r.b\nlet width e : En2 -> Int =\n    match e with\n    | Rect r -> r.width\n    | _ -> 0\nlet text e : En2 -> String =\n    match e with\n    | Label r -> r.text\n    | _ -> \"\"\n{ geta, getb, width, text }\n";
+                h.globals = None;
+                h.rebuild();
+                if let Err(e) = h.vm.load_script("mfields", src) {
+                    return json!({"id": job["id"], "status": "error", "msg": e.to_string()});
+                }
+                let a = guarded(&mut h, |vm| match vm.get_global::<FunctionRef<fn(Rec2) -> i64>>("mfields.geta") {
+                    Ok(mut f) => match f.call(Rec2 { a: 41, b: "bee".into() }) { Ok(x) => json!(x), Err(e) => json!({"error": e.to_string()}) },
+                    Err(e) => json!({"error": e.to_string()}),
+                });
+                let _ = h.vm.load_script("mfields", src);
+                let b = guarded(&mut h, |vm| match vm.get_global::<FunctionRef<fn(Rec2) -> String>>("mfields.getb") {
+                    Ok(mut f) => match f.call(Rec2 { a: 41, b: "bee".into() }) { Ok(x) => json!(x), Err(e) => json!({"error": e.to_string()}) },
+                    Err(e) => json!({"error": e.to_string()}),
+                });
+                let _ = h.vm.load_script("mfields", src);
+                let w = guarded(&mut h, |vm| match vm.get_global::<FunctionRef<fn(En2) -> i64>>("mfields.width") {
+                    Ok(mut f) => match f.call(En2::Rect { width: 7, height: 2 }) { Ok(x) => json!(x), Err(e) => json!({"error": e.to_string()}) },
+                    Err(e) => json!({"error": e.to_string()}),
+                });
+                let _ = h.vm.load_script("mfields", src);
+                let t = guarded(&mut h, |vm| match vm.get_global::<FunctionRef<fn(En2) -> String>>("mfields.text") {
+                    Ok(mut f) => match f.call(En2::Label { id: 5, text: "tee".into() }) { Ok(x) => json!(x), Err(e) => json!({"error": e.to_string()}) },
+                    Err(e) => json!({"error": e.to_string()}),
+                });
+                json!({"id": job["id"], "status": "ok", "geta": a, "getb": b, "width": w, "text": t, "expected": {"geta": 41, "getb": "bee", "width": 7, "text": "tee"}})
             }
             "sig" => {
                 if h.globals.is_none() {
